@@ -47,9 +47,14 @@ def make_param(E, P, name, kind):
             P.assume(v.t != NULL)
             P.assume(z3.Select(E.alloc_arr(P), v.t))
             P.assume(E.type_is(P, v.t, "list"))
+            P.assume(E.l_len(P, v) >= 0)
             return v
         if kind == "none":
             return NONE
+        if kind == "dt_ms":      # a naive datetime of millisecond resolution (the quantifier of C14-C17)
+            v = E.sym(name, "dt")
+            P.assume(v.payload[0] % 1000 == 0)
+            return v
         return E.sym(name, kind)
     if isinstance(kind, (list, tuple)) and kind and kind[0] == "list":   # python-side list of given kinds
         return P.new("list", tuple(make_param(E, P, "%s_%d" % (name, i), k) for i, k in enumerate(kind[1:])))
